@@ -95,6 +95,7 @@ func genericPack(c *Ctx) {
 	ruleRangeKey(c, "G-RANGE-KEY-AS-ELEMENT", pkgs)
 	ruleMapAppendKey(c, "G-MAP-APPEND-KEY", pkgs)
 	ruleTrimCutset(c, "G-TRIM-CUTSET", pkgs)
+	ruleLastElementSkipped(c, "G-LAST-ELEMENT-SKIPPED", pkgs)
 	ruleFirstDecides(c, "G-FIRST-DECIDES", pkgs)
 	ruleFormatData(c, "G-FORMAT-DATA", pkgs)
 	ruleNilBreak(c, "G-NIL-ELEMENT-BREAK", pkgs)
